@@ -1355,7 +1355,7 @@ class EKF:
             raise ValueError("A-priori quaternion must have a norm equal to 1.")
         # Current Measurements
         g = np.array(gyr)                       # Gyroscope data (control vector)
-        a = np.array(acc)
+        a = np.array(acc, dtype=float)         # Float copy: normalized in place below
         a_norm = np.linalg.norm(a)
         if a_norm == 0:
             return q
